@@ -38,9 +38,12 @@ class Sent(object):
 KINDS = ['keymap', 'hashmap:md5', 'stringmap', 'stringmap:latin_1', 'picklemap:repr', 'picklemap:pickle', 'picklemap:dill', 'hashmap:builtin']
 
 
-def configs(include_builtin_hash=True, include_named_encoding=False):
+CHAINS = ['chain:stringmap>hashmap:md5', 'chain:hashmap:md5>stringmap']      # a + b: the settings of b decide the layout of the key
+
+
+def configs(include_builtin_hash=True, include_named_encoding=False, include_chains=False):
     out = []
-    for kind in KINDS:
+    for kind in KINDS + (CHAINS if include_chains else []):
         if kind == 'hashmap:builtin' and not include_builtin_hash:
             continue
         if kind == 'stringmap:latin_1':
@@ -66,6 +69,10 @@ def make_keymap(cfg):
     kw = {'flat': flat, 'typed': typed}
     if sentinel:
         kw['sentinel'] = Sent()
+    if kind.startswith('chain:'):
+        first, second = kind[6:].split('>')
+        mk = {'stringmap': lambda **k: km.stringmap(**k), 'hashmap:md5': lambda **k: km.hashmap(algorithm='md5', **k)}
+        return mk[first]() + mk[second](**kw)
     if kind == 'keymap':
         return km.keymap(**kw)
     if kind == 'hashmap:md5':
